@@ -43,6 +43,10 @@ type Cfg struct {
 	CtrFailOnly int `json:"ctrFailOnly"`
 	// EvFalse: the application's state-change callbacks return false (they consume the event: callbacks registered later are not called)
 	EvFalse bool `json:"evFalse"`
+	// NonStrict: the application installs a non-strict unmarshaller (Session.SetUnmarshaller); LaxStore: its message store answers a
+	// range it cannot serve with an empty list and no error; BlockCb: (lifecycle rig) its incoming callback blocks until the handler ends
+	NonStrict bool `json:"nonStrict"`
+	LaxStore  bool `json:"laxStore"`
 	// Stamp: the application registers an outgoing handler that amends every message (sets SenderSubID), the documented purpose
 	// of HandleOutgoing: what is transmitted, stored and later retransmitted is the amended message
 	Stamp bool `json:"stamp"`
@@ -72,6 +76,20 @@ func (f *failOnceCounter) SetSeqNum(id fix.StorageID, n int) error {
 		}
 	}
 	return f.CounterStorage.SetSeqNum(id, n)
+}
+
+// one unmarshaller object per strictness for the whole application (Session.SetUnmarshaller on every session)
+var sharedUnmarshaller = map[bool]*encoding.DefaultUnmarshaller{true: encoding.NewDefaultUnmarshaller(true), false: encoding.NewDefaultUnmarshaller(false)}
+
+// laxStore: a message store that answers a range it cannot serve (inverted, beyond what is stored) with nothing, not with an error
+type laxStore struct{ session.MessageStorage }
+
+func (l laxStore) Messages(id fix.StorageID, from, to int) ([]simplefixgo.SendingMessage, error) {
+	m, err := l.MessageStorage.Messages(id, from, to)
+	if err != nil {
+		return []simplefixgo.SendingMessage{}, nil
+	}
+	return m, nil
 }
 
 // failFromStore: an application store that starts failing (a disk that filled up, a database that went away)
@@ -219,6 +237,7 @@ type Rig struct {
 	done   chan struct{}
 	wg     sync.WaitGroup
 	removeID int64
+	outHooks [2]int64 // RemoveDance: two all-types outgoing handlers of the application
 	cfg      Cfg
 	mid    *Action // armed: inject this inbound message when the next outbound message passes the outgoing handlers
 	nsend  int     // application sends so far
@@ -272,6 +291,9 @@ func NewRig(cfg Cfg) (*Rig, error) {
 	if cfg.CtrFailOnly > 0 {
 		cs = &failOnceCounter{CounterStorage: cs, only: cfg.CtrFailOnly}
 	}
+	if cfg.LaxStore {
+		ms = laxStore{ms}
+	}
 	// one options value for the whole application, as the repository's own tests and examples have it: a session of the OTHER
 	// role is constructed from it first (an initiating one with an encryption method of its own, an accepting one with limits
 	// of its own) and never run; what the session under test accepts and sends must not depend on that sibling
@@ -323,6 +345,7 @@ func NewRig(cfg Cfg) (*Rig, error) {
 		cancel()
 		return nil, err
 	}
+	r.S.SetUnmarshaller(sharedUnmarshaller[!cfg.NonStrict])
 	r.S.OnError(func(e error) {
 		r.mu.Lock()
 		r.errs = append(r.errs, e.Error())
@@ -424,6 +447,9 @@ func (r *Rig) Do(a *Action) (callErr bool) {
 	case "run":
 		callErr = r.S.Run() != nil
 		if r.cfg.RemoveDance {
+			// two all-types outgoing handlers of the application, registered once the session runs (removed again by "rmhooks")
+			r.outHooks[0] = r.H.HandleOutgoing(simplefixgo.AllMsgTypes, func(simplefixgo.SendingMessage) bool { return true })
+			r.outHooks[1] = r.H.HandleOutgoing(simplefixgo.AllMsgTypes, func(simplefixgo.SendingMessage) bool { return true })
 			_ = r.H.RemoveIncomingHandler("1", r.removeID)
 		}
 	case "send":
@@ -438,6 +464,11 @@ func (r *Rig) Do(a *Action) (callErr bool) {
 		callErr = r.S.Stop() != nil
 	case "relogon":
 		_ = r.S.LogonRequest()
+	case "rmhooks": // the application unregisters its own two all-types outgoing handlers, in the order it registered them
+		if r.cfg.RemoveDance {
+			_ = r.H.RemoveOutgoingHandler(simplefixgo.AllMsgTypes, r.outHooks[0])
+			_ = r.H.RemoveOutgoingHandler(simplefixgo.AllMsgTypes, r.outHooks[1])
+		}
 	case "resetout": // the application starts a new run of outbound numbers (as it would on a ResetSeqNumFlag logon)
 		_ = r.Store.ResetSeqNum(fix.StorageID{Side: fix.Outgoing})
 	case "advance":
